@@ -178,7 +178,6 @@ int main(int argc, char** argv)
     COutPoint coin;
     CAmount coin_value = 0;
     for (auto& [op, c] : *u) if (c.coinbase && 111 - c.height >= 100) { coin = op; coin_value = c.value; break; }
-    LogInstance().DisableLogging();
     vxs_scope_add(&cs_main);
     vxs_scope_add(&node.pool().cs);
     vxs_scope_add(&node.m_node.notifications->m_tip_block_mutex);
